@@ -69,7 +69,6 @@ Section Leaf.
   Definition L__predict (s : ST) (h : list Z) : ST * series := (s, forecast' l s h).
 
   (* ---- the regenerated methods at this object ---- *)
-  Definition G_set_cutoff := gen_set_cutoff ST (fmem lpar) L_set_y (fcut lpar) set_cut' (ffh lpar) L_set_fh L_window_length.
   Definition G_set_y_X := gen_set_y_X ST (fmem lpar) L_set_y (fcut lpar) set_cut' (ffh lpar) L_set_fh L_window_length.
   Definition G_update_y_X := gen_update_y_X ST (fmem lpar) L_set_y (fcut lpar) set_cut' (ffh lpar) L_set_fh L_window_length.
   Definition G_set_fh := gen_set_fh ST (fmem lpar) L_set_y (fcut lpar) set_cut' (ffh lpar) L_set_fh L_window_length.
@@ -94,10 +93,6 @@ Section Leaf.
     {| fmem := fmem lpar s; fcut := fcut lpar s; ffh := ffh lpar s; fpar := fpar lpar s |} = s.
   Proof. destruct s; reflexivity. Qed.
 
-  (* _set_cutoff *)
-  Theorem bridge_set_cutoff s c : G_set_cutoff s c = set_cut' s c.
-  Proof. reflexivity. Qed.
-
   (* _set_y_X: the data are remembered as given, the cutoff is their last time point; followed by
      the horizon and the parameters this is the state a fit leaves *)
   Theorem bridge_set_y_X s y :
@@ -114,7 +109,7 @@ Section Leaf.
      batch *)
   Theorem bridge_update_y_X s y : G_update_y_X s y = mem_upd' s y.
   Proof.
-    unfold G_update_y_X, gen_update_y_X, gen_set_cutoff, mem_upd, L_set_y, set_cut.
+    unfold G_update_y_X, gen_update_y_X, mem_upd, L_set_y, set_cut.
     destruct y as [|p y]; [cbn; reflexivity|].
     (* whichever way the source writes "the batch is (not) empty": decide the test, the impossible
        branch goes by arithmetic *)
@@ -233,6 +228,15 @@ Section Leaf.
       cbn. repeat split. + symmetry. apply combine_snoc. exact L. + rewrite !app_length. cbn. lia.
   Qed.
 
+  (* the layout of the result (concatenated single-step series / frame with one column per cutoff /
+     that column when there is only one) is, in the model, always the list of labelled forecasts *)
+  Lemma firstn1_single {A} (xs : list A) : (Z.of_nat (length xs) =? 1) = true -> firstn 1 xs = xs.
+  Proof. destruct xs as [|a [|b r]]; cbn [length firstn]; intros H; try reflexivity; lia. Qed.
+
+  Lemma combine_length_eq {A B} (xs : list A) (ys : list B) :
+    length xs = length ys -> length (List.combine xs ys) = length ys.
+  Proof. intros H. rewrite combine_length. lia. Qed.
+
   Lemma bridge_mc_fold y h up : forall ws a m,
     acc_rel a m ->
     acc_rel (fold_left (gen_predict_moving_cutoff_loop1 ST (fmem lpar) L_set_y (fcut lpar) set_cut' (ffh lpar) L_set_fh L_window_length G__ups y h up) ws a)
@@ -255,7 +259,7 @@ Section Leaf.
         (set_cut' s1 (fcut lpar s), if ok then BPreds out else BErr)
     end.
   Proof.
-    unfold G_predict_moving_cutoff, gen_predict_moving_cutoff, gen_set_cutoff. cbv zeta.
+    unfold G_predict_moving_cutoff, gen_predict_moving_cutoff. cbv zeta.
     destruct (cv_windows c (Z.of_nat (length y))) as [ws|].
     - pose proof (bridge_mc_fold y (cv_fh c) up ws
                     (set_cut' s (zfirst (times y) + - (1)), [], [], true)
@@ -264,7 +268,11 @@ Section Leaf.
       specialize (R (conj eq_refl (conj eq_refl (conj eq_refl eq_refl)))).
       destruct (fold_left (gen_predict_moving_cutoff_loop1 _ _ _ _ _ _ _ _ _ _ _ _) ws _) as [[[s1 ps] cs] ok].
       destruct (fold_left (mc_step' l (cv_fh c) up) _ _) as [[s1' out] ok'].
-      destruct R as (-> & -> & -> & _). destruct ok'; reflexivity.
+      destruct R as (-> & -> & -> & L). destruct ok'; [|reflexivity].
+      repeat match goal with
+             | |- context [if ?b then _ else _] => let E := fresh "E" in destruct b eqn:E
+             end; try reflexivity;
+        rewrite firstn1_single; try reflexivity; rewrite combine_length_eq; assumption.
     - unfold set_cut. cbn. rewrite fstate_eta. reflexivity.
   Qed.
 
@@ -475,8 +483,7 @@ Section Composite.
         (with_own' (b_set_cut (cut (own' s))) s1, BPreds out)
     end.
   Proof.
-    unfold KG_predict_moving_cutoff, gen_predict_moving_cutoff, gen_set_cutoff, K_set_cutoff,
-      K_get_cutoff. cbv zeta.
+    unfold KG_predict_moving_cutoff, gen_predict_moving_cutoff, K_set_cutoff, K_get_cutoff. cbv zeta.
     destruct (cv_windows c (Z.of_nat (length y))) as [ws|].
     - pose proof (bridge_comp_mc_fold y (cv_fh c) up ws
                     (with_own' (b_set_cut (zfirst (times y) + - (1))) s, [], [], true)
@@ -485,7 +492,11 @@ Section Composite.
       specialize (R (conj eq_refl (conj eq_refl (conj eq_refl eq_refl)))).
       destruct (fold_left (gen_predict_moving_cutoff_loop1 _ _ _ _ _ _ _ _ _ _ _ _) ws _) as [[[s1 ps] cs] ok].
       destruct (fold_left (k_mc_step' (cv_fh c) up) _ _) as [s1' out].
-      destruct R as (-> & -> & -> & _). reflexivity.
+      destruct R as (-> & -> & -> & L).
+      repeat match goal with
+             | |- context [if ?b then _ else _] => let E := fresh "E" in destruct b eqn:E
+             end; try reflexivity;
+        rewrite firstn1_single; try reflexivity; rewrite combine_length_eq; assumption.
     - rewrite with_own_cut_twice, with_own_cut_id. reflexivity.
   Qed.
 
